@@ -468,10 +468,35 @@ func (dr *DialogueRunner) ConvertAndAddCommand(commandID string, command any) er
 // It can then be used to later restore the state of the dialogue runner.
 func (dr *DialogueRunner) Snapshot() *Snapshot {
 	return &Snapshot{
-		Variables:    dr.variableSnapshot,
+		Variables:    copyVariables(dr.variableSnapshot),
 		CurrentNode:  dr.currentNode,
-		VisitedNodes: dr.visitedNodes,
+		VisitedNodes: copyVisitedNodes(dr.visitedNodes),
 	}
+}
+
+// copyVariables returns a copy of variables that shares nothing with it.
+func copyVariables(variables map[string]variable.Value) map[string]variable.Value {
+	result := make(map[string]variable.Value, len(variables))
+	for name, value := range variables {
+		switch {
+		case value.Number != nil:
+			result[name] = *variable.NewNumber(*value.Number)
+		case value.Boolean != nil:
+			result[name] = *variable.NewBoolean(*value.Boolean)
+		case value.String != nil:
+			result[name] = *variable.NewString(*value.String)
+		}
+	}
+	return result
+}
+
+// copyVisitedNodes returns a copy of visitedNodes.
+func copyVisitedNodes(visitedNodes map[string]int) map[string]int {
+	result := make(map[string]int, len(visitedNodes))
+	for node, count := range visitedNodes {
+		result[node] = count
+	}
+	return result
 }
 
 type statementQueue struct {
